@@ -508,6 +508,7 @@ func runC10(c *core.Ctx) {
 	}
 	c10KeyIDHistory(c)
 	c10FailureHistory(c)
+	c10EntryPointHistory(c)
 	c.Obs("history_steps_equal_to_fresh_baseline", same)
 	c.Obs("histories_with_untouched_inputs", untouched)
 	// calibration of the runtime's map randomisation: distinct orders of a 3-element map over R ranges
@@ -581,6 +582,83 @@ func c10KeyIDHistory(c *core.Ctx) {
 		}
 	}
 	c.Obs("key_id_histories_all_accepted", ok)
+}
+
+// c10EntryPointHistory: the directory an inspection looks at is the one this call was given (the
+// working directory for InTotoVerify, the run directory for InTotoVerifyWithDirectory), whatever
+// directory an earlier call of the other entry point in the same process was given. Two
+// directories, one holding a file the inspection's DISALLOW rules name (under each spelling the two entry points record it with) and one not holding it; a fixed
+// sequence of calls alternating entry points and directories; every verdict is known beforehand.
+func c10EntryPointHistory(c *core.Ctx) {
+	if c.Shard != 8%c.NShards {
+		return
+	}
+	fast := gen.Fast(Pool(c))
+	owner, fn := fast[0], fast[1]
+	ok := int64(0)
+	for _, dsse := range []bool{false, true} {
+		for _, relative := range []bool{false, true} {
+			id := fmt.Sprintf("entry-point-history/dsse=%v/relative-run-directory=%v", dsse, relative)
+			if !c.Want(id) {
+				continue
+			}
+			base := filepath.Join(c.WorkDir, fmt.Sprintf("c10-entry-%v-%v", dsse, relative))
+			os.RemoveAll(base)
+			clean, tainted, links := filepath.Join(base, "clean"), filepath.Join(base, "tainted"), filepath.Join(base, "links")
+			mkdirs(clean, tainted, links)
+			writeFile(filepath.Join(clean, "present.txt"), "x\n")
+			writeFile(filepath.Join(tainted, "other.txt"), "y\n")
+			allow := [][]string{{"ALLOW", "*"}}
+			layout := gen.NewLayout([]intoto.Step{gen.Step("s", 1, []string{fn.Pub.KeyID}, allow, allow)},
+				[]intoto.Inspection{gen.Inspection("look", []string{"/bin/sh", "-c", "exit 0"}, [][]string{{"DISALLOW", "other.txt"}, {"DISALLOW", filepath.Join(tainted, "other.txt")}, {"DISALLOW", "../tainted/other.txt"}, {"ALLOW", "*"}}, allow)},
+				gen.KeyMap(fn))
+			md, err := gen.SignedMeta(layout, dsse, owner.Priv)
+			if err != nil {
+				c.Inconclusive("harness: cannot sign layout")
+				continue
+			}
+			gen.WriteLink(links, gen.NewLink("s", nil, gen.Artifacts(map[string]string{"out": "o"})), fn.Priv, dsse)
+			rd := func(d string) string {
+				if relative {
+					return filepath.Join("..", filepath.Base(d))
+				}
+				return d
+			}
+			type call struct {
+				cwd, runDir string
+				want        bool
+			}
+			// (working directory, run directory or "" for InTotoVerify, expected verdict)
+			seq := []call{{clean, "", true}, {clean, rd(tainted), false}, {clean, "", true}, {tainted, "", false}, {tainted, rd(clean), true}, {tainted, "", false},
+				{clean, rd(clean), true}, {tainted, "", false}, {tainted, rd(tainted), false}, {clean, "", true}, {clean, ".", true}, {tainted, ".", false}, {clean, "", true}}
+			c.Begin(id)
+			var got []string
+			bad := -1
+			for k, cl := range seq {
+				obs := Verify(VerifyArgs{Layout: md, Keys: gen.KeyMap(owner), LinkDir: links, Cwd: cl.cwd, RunDir: cl.runDir})
+				c.Eval(1)
+				ep := "InTotoVerify"
+				if cl.runDir != "" {
+					ep = "InTotoVerifyWithDirectory(" + cl.runDir + ")"
+				}
+				got = append(got, fmt.Sprintf("%s in %s: accepted=%v want=%v %s", ep, filepath.Base(cl.cwd), obs.Accepted(), cl.want, errStr(obs.Err)))
+				if obs.Accepted() != cl.want && bad < 0 {
+					bad = k
+				}
+			}
+			c.End(id)
+			os.Chdir(c.WorkDir)
+			c.Class("entry-point-history", dsse, relative)
+			if bad == 0 {
+				c.Inconclusive("harness: the first call of the entry-point history did not give the expected verdict: " + got[0])
+			} else if bad > 0 {
+				c.Violation(fmt.Sprintf("the directory an inspection is checked against depends on what the process verified before (call %d of a sequence alternating InTotoVerify / InTotoVerifyWithDirectory over a directory with and one without a disallowed file)", bad+1), id, map[string]any{"dsse": dsse, "relative_run_directory": relative, "calls_in_order": got})
+			} else {
+				ok++
+			}
+		}
+	}
+	c.Obs("entry_point_histories_all_as_expected", ok)
 }
 
 // treeListing lists the files below dir with their sizes.
@@ -675,13 +753,13 @@ func init() {
 	core.Register(&core.Property{
 		ID:    "C10",
 		Level: "exploration",
-		Rule: "chains biased to the anchors: step with one key-authorized and one certificate-authorized link (threshold 0, 1 and 2; the two links agreeing or disagreeing), certificate constraint lists that are not sorted, rules / expected command / inspection run with {PRODUCT} and {MARK} markers, a link whose artifact path needs cleaning (./bin//app) consumed by a MATCH rule, optionally two steps delegated to sublayouts of two functionaries and (legacy wrapper) a third one to a functionary who is authorized through a certificate constraint, two supplied layout keys (both signed / second without a signature / second with a corrupt signature), an inspection executable given by a relative path, three valid links of which one disagrees, a MATCH rule between artifacts that carry two digest algorithms of which only one agrees, one functionary key listed under two key ids (two lists of key id hash algorithms) whose two links differ; the layout has an intermediate CA of its own and the caller passes a list of additional intermediates with spare capacity whose backing array is compared before/after; 2 wrappers x 2 entry points; all histories of length<=2 plus 12 of length 3 (quick) / all of length<=3 plus 30 of length 4 (thorough) over the dictionaries {none, p (accepting), q (rejecting), r (a value containing another parameter's marker)} on ONE in-memory layout object: every outcome (verdict, summary, executed marker) must equal the outcome of a freshly loaded copy, and the serialisation of the layout object (payload, signatures, dumped envelope), of the key map and of the dictionary, and (entry point with a run directory of its own) the content of the inspected directory must be unchanged after every call; two sound chains whose layouts define one key id with different key material are verified alternately (6 verifications, all accepted); a sound nested chain verified alternately with a broken one, 30 rounds (failures leave nothing behind); each baseline is repeated R=16 (quick) / 64 (thorough) times and each history R/4 times with fresh maps. " +
+		Rule: "chains biased to the anchors: step with one key-authorized and one certificate-authorized link (threshold 0, 1 and 2; the two links agreeing or disagreeing), certificate constraint lists that are not sorted, rules / expected command / inspection run with {PRODUCT} and {MARK} markers, a link whose artifact path needs cleaning (./bin//app) consumed by a MATCH rule, optionally two steps delegated to sublayouts of two functionaries and (legacy wrapper) a third one to a functionary who is authorized through a certificate constraint, two supplied layout keys (both signed / second without a signature / second with a corrupt signature), an inspection executable given by a relative path, three valid links of which one disagrees, a MATCH rule between artifacts that carry two digest algorithms of which only one agrees, one functionary key listed under two key ids (two lists of key id hash algorithms) whose two links differ; the layout has an intermediate CA of its own and the caller passes a list of additional intermediates with spare capacity whose backing array is compared before/after; 2 wrappers x 2 entry points; all histories of length<=2 plus 12 of length 3 (quick) / all of length<=3 plus 30 of length 4 (thorough) over the dictionaries {none, p (accepting), q (rejecting), r (a value containing another parameter's marker)} on ONE in-memory layout object: every outcome (verdict, summary, executed marker) must equal the outcome of a freshly loaded copy, and the serialisation of the layout object (payload, signatures, dumped envelope), of the key map and of the dictionary, and (entry point with a run directory of its own) the content of the inspected directory must be unchanged after every call; two sound chains whose layouts define one key id with different key material are verified alternately (6 verifications, all accepted); a sound nested chain verified alternately with a broken one, 30 rounds (failures leave nothing behind); a layout whose inspection disallows a file, verified 13 times in one process alternating InTotoVerify / InTotoVerifyWithDirectory over a directory that holds the file and one that does not (absolute and relative run directories, both wrappers; every verdict fixed beforehand); each baseline is repeated R=16 (quick) / 64 (thorough) times and each history R/4 times with fresh maps. " +
 			"non-trivial = history of length>=2 or R>=2 with >=2 links in a step; distinct = (variant, history)",
 		Assumptions: []string{"the iteration order taken inside the library is not observable; reported are R, the number of distinct outcomes per case and the number of distinct orders a same-sized probe map showed in the same process"},
 		Workers:     func(string) int { return 16 },
 		Floors: func(string) map[string]int64 {
 			return map[string]int64{"history_steps_equal_to_fresh_baseline": 1000, "histories_with_untouched_inputs": 500, "map_orders_seen_in_calibration": 2,
-				"two_layout_keys_both_signed_accepted": 1, "two_layout_keys_one_not_signed_rejected": 2, "relative_inspection_executable_ran": 1}
+				"two_layout_keys_both_signed_accepted": 1, "two_layout_keys_one_not_signed_rejected": 2, "relative_inspection_executable_ran": 1, "entry_point_histories_all_as_expected": 4}
 		},
 		Run:      runC10,
 		TimeoutS: func(t string) int { return 2400 },
